@@ -58,8 +58,13 @@ def embed(kind, na, toks, n):
         if na == 2:
             lines.append('1: 0: %d: %s' % (n, txt))
         else:
-            lines.append('1: 0: %d: 1' % n)
-            lines.append('1: 0: %d: %d: %s' % (n, n, txt))
+            # two projects, two lecturers, project 1 supervised by lecturer 2 (not the identity map)
+            head = '%d 2 2' % ns
+            lines[0] = head
+            lines.append('1: 0: %d: 2' % n)
+            lines.append('2: 0: 1: 1')
+            lines.append('1: 0: 1: 1: ')
+            lines.append('2: 0: %d: %d: %s' % (n, n, txt))
     return '\n'.join(lines) + '\n'
 
 
